@@ -429,11 +429,44 @@ class DataFlow(object):
         """Facts established by taking edge `label` out of test node."""
         if node.kind != "test":
             return set()
-        if label == "true":
-            return test_facts(node.ast.test, True)
-        if label == "false":
-            return test_facts(node.ast.test, False)
+        if label in ("true", "false"):
+            out = set(test_facts(node.ast.test, label == "true"))
+            for alt in self._alias_tests(node):
+                out |= test_facts(alt, label == "true")
+            return out
         return set()
+
+    def _alias_tests(self, node):
+        """A test of a local that is an unmodified snapshot of another variable (`h = self._transport` ; `if h is None`) is
+        also a test of that variable, as long as the variable has not been assigned since the snapshot was taken."""
+        cache = self.__dict__.setdefault("_alias_cache", {})
+        if node in cache:
+            return cache[node]
+        import copy
+        out = []
+        test = node.ast.test
+        names = sorted(set(n.id for n in ast.walk(test) if isinstance(n, ast.Name) and isinstance(n.ctx, ast.Load)))
+        for h in names:
+            if h in self.func.params:
+                continue
+            d = self.unique_def(node, h)
+            if d is None or d.kind != "assign" or d.path or d.value is None:
+                continue
+            src_e = unawait(d.value)
+            sk = varkey(src_e)
+            if sk is None or not isinstance(src_e, (ast.Attribute, ast.Name)) or sk == h:
+                continue
+            if self.reaching(node, sk) != self.reaching_out(d.node, sk):
+                continue          # the source may have been assigned in between
+
+            class Sub(ast.NodeTransformer):
+                def visit_Name(self_, n):
+                    if n.id == h and isinstance(n.ctx, ast.Load):
+                        return copy.deepcopy(src_e)
+                    return n
+            out.append(Sub().visit(copy.deepcopy(test)))
+        cache[node] = out
+        return out
 
     def _solve_facts(self):
         g = self.g
@@ -456,7 +489,9 @@ class DataFlow(object):
             for s, l in g.succ[n]:
                 out = cur
                 if n.kind == "test" and l in ("true", "false"):
-                    ef = test_facts(n.ast.test, l == "true")
+                    ef = set(test_facts(n.ast.test, l == "true"))
+                    for alt in self._alias_tests(n):
+                        ef |= test_facts(alt, l == "true")
                     # a test such as `x := ...` does not occur; facts about variables defined at n itself are fine
                     out = frozenset(set(cur) | ef)
                 new = out if IN[s] is TOP else (IN[s] & out)
